@@ -11,3 +11,24 @@ func (r Return) StatementType() StatementType {
 func (r Return) Values() []Expression {
 	return r.values
 }
+
+// ValueTypes returns the types of the returned values. A single call
+// of a function with several results delivers all of them (return f()).
+func (r Return) ValueTypes() []ValueType {
+	if len(r.values) == 1 {
+		if length, _ := calledFunction(r.values[0]); length > 1 {
+			expr := r.values[0]
+
+			for expr.StatementType() == STATEMENT_TYPE_GROUP {
+				expr = expr.(Group).Child()
+			}
+			return expr.(FunctionCall).ReturnTypes()
+		}
+	}
+	valueTypes := []ValueType{}
+
+	for _, value := range r.values {
+		valueTypes = append(valueTypes, value.ValueType())
+	}
+	return valueTypes
+}
